@@ -451,6 +451,14 @@ impl<
             return drain();
         }
 
+        // The state is either IDLE or PENDING here. A PENDING state can be left over from a
+        // notifier whose trigger was already consumed by the `empty_buffer()` call of a previous
+        // drain. If we would go to sleep with it, that notifier would set the state to NOTIFIED
+        // afterwards and every later notifier would skip the trigger while we are sleeping on an
+        // empty trigger - a lost wake-up. Resetting the state to IDLE before waiting guarantees
+        // that every notification that arrives from now on triggers the waiter.
+        mgmt.notification_state
+            .store(NOTIFICATION_STATE_IDLE, Ordering::SeqCst);
         fail!(from self, when wait_call(),
             "{msg} since the underlying wait call failed.");
         mgmt.notification_state
